@@ -13,6 +13,11 @@ CLAIMED = {
             "lockedfile, os.Rename atomicity and modzip.Unzip are trusted; only package mod/modcache is analysed"),
 }
 
+CLAIMED["C15"] = ("§3 C15",
+    "CFG gate analysis (guard atoms with short-circuit polarity, rejecting-edge reachability) over CheckZip/checkFiles/Unzip/Create/checkPath/checkElem; constant-folded open flags; sibling obligation tables",
+    "Decides that every file-system mutation of Unzip lies behind the archive check and targets filepath.Join(dir, checked entry name); that in both sibling checkers each gating check (clean path, CheckFilePath, local-module, collision, cue.mod placement/case, size limits) stands on every path to acceptance and its rejecting edge skips the entry; that files are created only with O_CREATE|O_EXCL; that declared sizes are enforced by LimitedReader(size+1) with the exhaustion test before success; that CheckedFiles.Err consults every recorded error; and that the CheckFilePath chain rejects on each of its tests.",
+    "archive/zip, io.LimitedReader and O_EXCL semantics trusted; which characters fileNameOK admits and Unicode case folding are value-level and not decided")
+
 # properties not claimed (yet) -> reason
 NOT_APPLICABLE = {
     "C03": "value-level: the content is the cell values of the bound-simplification decision table over numbers; no shape rule separates a correct table from an off-by-one (DESIGN.md §4)",
